@@ -217,6 +217,30 @@ pub fn run_c13(args: &[String]) {
                 roots.push(e);
             }
         }
+        // every third batch runs in a context that already contains what the simplifier will build: the batch is
+        // simplified once in a scratch copy, then a new context is filled with all results and intermediate forms FIRST
+        // and the roots LAST (so every rewrite result that coincides with an existing node has an OLDER reference than the
+        // expression it is rewritten from)
+        if b % 3 == 1 {
+            let mut scratch = ctx.clone();
+            let mut s0 = Simplifier::new(SparseExprMap::default());
+            for &r in roots.iter() { let _ = guarded(|| s0.simplify(&mut scratch, r)); }
+            let mut first: Vec<ExprRef> = vec![];
+            for (_, v) in s0.verif_cache_entries() { first.push(v); }
+            for (k, _) in s0.verif_cache_entries() { first.push(k); }
+            first.retain(|e| !roots.contains(e));
+            first.sort(); first.dedup(); first.reverse();
+            if first.len() > 400 { first.truncate(400); }
+            let nfirst = first.len();
+            let mut all = first;
+            all.extend(roots.iter().cloned());
+            let (tbl, ixs) = export_many(&scratch, &all);
+            let mut ctx2 = Context::default();
+            if let Ok(refs) = guarded(|| import(&mut ctx2, &tbl)) {
+                roots = ixs[nfirst..].iter().map(|i| refs[*i - 1]).collect();
+                ctx = ctx2;
+            }
+        }
         let (nodes, ix) = export_many(&ctx, &roots);
         out.put(&json!({"ev":"Batch","batch":b,"inst":0,"cache":"","in_ref":0,"out_ref":0,"kind":"ok","loc":"","ms":0,
                         "nodes": nodes, "roots": ix, "refs": roots.iter().map(|r| idx(*r)).collect::<Vec<_>>()}));
